@@ -35,7 +35,20 @@ F(r) ==
      \* snapshots, event mode) never exceeds maxStackSize, which the allocation class covers
      \cup (IF r.cout = "ok" /\ \E k \in Idx(r.runs) : r.runs[k].hw > r.max THEN mk("stack-bound") ELSE {})
      \cup (IF r.cout = "ok" /\ Alloc(r.max, r.size) < r.max THEN mk("alloc-class") ELSE {})
-K(r) == IF r.cout = "panic" /\ AsBuiltOutcome(r) = "panic" THEN {<<"C09", r.id, 0, 0, "F-C09-1">>} ELSE {}
+\* kind "tree": arbitrary deep shapes, judged against Den and the LOOP high-water mark
+FTree(r) ==
+  LET mk(sig) == {<<"C09", r.id, 0, 0, sig>>} IN
+  (IF r.cout # "ok" THEN mk("small-program-rejected-or-panics") ELSE {})
+  \cup (IF r.cout = "ok" /\ \E k \in Idx(r.runs) :
+               LET d == Den(r.tree, r.envs[r.runs[k].e]) IN
+               \* (option subsets incl. Reordering: the value is fixed only when every operand succeeds, C02)
+               \/ IsPanic(r.runs[k].res) \/ IsPanic(r.runs[k].try)
+               \/ (~IsWide(d) /\ ~OutOfDomain(d) /\ Total(r.tree, r.envs[r.runs[k].e]) /\
+                   (~OutcomeEq(r.runs[k].res, d) \/ ~OutcomeEq(r.runs[k].try, d)))
+        THEN mk("wrong-result") ELSE {})
+  \cup (IF r.cout = "ok" /\ \E k \in Idx(r.runs) : r.runs[k].hw > r.max THEN mk("stack-bound") ELSE {})
+  \cup (IF r.cout = "ok" /\ Alloc(r.max, r.size) < r.max THEN mk("alloc-class") ELSE {})
+K(r) == IF r.kind = "tree" THEN {} ELSE IF r.cout = "panic" /\ AsBuiltOutcome(r) = "panic" THEN {<<"C09", r.id, 0, 0, "F-C09-1">>} ELSE {}
 
 \* drift: node count of the real program vs the closed form (x2 minus fast leaves in event mode)
 Drifts(r) ==
@@ -51,16 +64,16 @@ Next ==
   /\ l <= Len(Trace)
   /\ l' = l + 1
   /\ LET r == Trace[l]
-         Fs == F(r)
+         Fs == IF r.kind = "tree" THEN FTree(r) ELSE F(r)
          Ks == K(r)
-         D == Drifts(r)
+         D == IF r.kind = "tree" THEN {} ELSE Drifts(r)
      IN /\ \A f \in Fs : PrintT(<<"F", f[1], f[2], f[3], f[4], f[5]>>)
         /\ \A f \in Ks : PrintT(<<"K", f[1], f[2], f[3], f[4], f[5]>>)
         /\ \A f \in D : PrintT(<<"DRIFT", f[2], f[3], f[4]>>)
         /\ judged' = judged + 1
-        /\ nontriv' = nontriv + (IF NearLimit(r) THEN 1 ELSE 0)
+        /\ nontriv' = nontriv + (IF r.kind = "tree" THEN (IF r.cout = "ok" /\ r.max >= 7 THEN 1 ELSE 0) ELSE IF NearLimit(r) THEN 1 ELSE 0)
         /\ skipped' = skipped
-        /\ drift' = drift + (IF r.cout = "ok" /\ ~r.events THEN 1 ELSE 0)
+        /\ drift' = drift + (IF r.kind # "tree" /\ r.cout = "ok" /\ ~r.events THEN 1 ELSE 0)
         /\ found' = found + Card(Fs)
 Spec == Init /\ [][Next]_vars
 Done == l = Len(Trace) + 1 => PrintT(<<"SUMMARY", l - 1, judged, nontriv, skipped, drift, found>>)
